@@ -114,6 +114,27 @@ def graphsTo (gs : List (String × List Nat)) : Json :=
 def keyOfJson (j : Json) : Except String Key := do
   pure ⟨← (← j.getArrVal? 0).getStr?, ← natList (← j.getArrVal? 1), ← (← j.getArrVal? 2).getStr?⟩
 
+def optStr (j : Json) : Except String (Option String) :=
+  match j with
+  | Json.null => pure none
+  | v => (v.getStr?).map some
+
+def edgeOf (e : Json) : Except String (Nat × Nat × Option String) := do
+  pure ((← (← e.getArrVal? 0).getNat?), (← (← e.getArrVal? 1).getNat?), (← optStr (← e.getArrVal? 2)))
+
+def useOf (j : Json) : Except String LinkUse := do
+  let resnames ← (← optArr j "resnames").mapM fun r => do
+    pure ((← (← r.getArrVal? 0).getNat?), (← strList (← r.getArrVal? 1)))
+  let attrs ← (← optArr j "attrs").mapM fun a => do
+    pure ((← (← a.getArrVal? 0).getNat?), (← (← a.getArrVal? 1).getStr?), (← (← a.getArrVal? 2).getStr?))
+  pure ⟨← attrsOf (← j.getObjVal? "molmeta"), resnames, ← (← optArr j "edges").mapM edgeOf,
+        ← (← optArr j "inserts").mapM ixnOf, attrs, ← (← optArr j "removed").mapM (·.getNat?)⟩
+
+def factsOf (j : Json) : Except String GraphFacts := do
+  let resnames ← (← optArr j "resnames").mapM fun r => do
+    pure ((← (← r.getArrVal? 0).getNat?), (← (← r.getArrVal? 1).getStr?))
+  pure ⟨← attrsOf (← j.getObjVal? "molmeta"), resnames, ← (← optArr j "edges").mapM edgeOf⟩
+
 def handle (j : Json) : Except String Json := do
   let op ← (← j.getObjVal? "op").getStr?
   match op with
@@ -159,15 +180,12 @@ def handle (j : Json) : Except String Json := do
     let nodes ← nodesOf (← j.getObjVal? "nodes")
     let spec := specMol ff nodes
     let obs ← molOf (← j.getObjVal? "obs")
-    let keys ← (← optArr j "keys").mapM keyOfJson
-    let attrs ← (← optArr j "attrs").mapM fun a => do
-      pure ((← (← a.getArrVal? 0).getNat?), (← (← a.getArrVal? 1).getStr?))
-    let removed ← (← optArr j "removed").mapM (·.getNat?)
+    let uses ← (← optArr j "uses").mapM useOf
+    let facts ← factsOf (← j.getObjVal? "facts")
     let genExcl ← (← optArr j "genexcl").mapM ixnOf
     let targets ← targetsOf nodes j
-    let renames ← (← optArr j "renames").mapM fun a => do
-      pure ((← (← a.getArrVal? 0).getNat?), (← (← a.getArrVal? 1).getStr?))
-    let touched : Touched := ⟨keys, attrs, modNamedAtoms Tables.proteinResnames ff spec renames targets, removed⟩
+    let touched := touchedOf facts uses
+      (modNamedAtoms Tables.proteinResnames ff spec (renamesOf facts uses) targets)
     let all := checkFrame spec obs touched genExcl
     let diffs := all.filter (·.1 != "resid") ++ all.filter (·.1 == "resid")
     pure (okJson [("diffs", toJson (diffs.map (·.2))), ("cats", toJson (diffs.map (·.1)).eraseDups)])
